@@ -12,7 +12,7 @@ K2  (CrossHair) Peer.peers_from_features on arbitrary JSON feature dictionaries 
 K3  (symx) Peer.peers_from_features -> Peer._port / _integer with the announced tcp_port and
     ssl_port unbounded symbolic integers (and, per shape, a concrete numeric string, bool, float,
     None or container in one of the two slots): every port of every peer built is absent or an
-    int in 1..65535, also in what to_tuple / serialize hand on.
+    int (not a JSON boolean) in 1..65535, also in what to_tuple / serialize hand on.
 """
 from vlib import symx, xhair
 from vlib.runner import Kernel
@@ -237,6 +237,8 @@ def k3(shape):
             if port is None:
                 continue
             n_present += 1
+            eng.prove(not isinstance(port, bool), f'{name} of a peer built from announced features is a JSON boolean, not a port',
+                      {'signature': 'boolean-port', 'which': name, 'form': form})
             eng.prove(z3_and([port > 0, port < 65536]), f'{name} of a peer built from announced features is not a valid port',
                       {'signature': 'invalid-port', 'which': name, 'form': form})
         ser = p.serialize()
